@@ -9,6 +9,7 @@
 #include <boost/archive/xml_iarchive.hpp>
 #include <boost/serialization/nvp.hpp>
 #include <boost/serialization/string.hpp>
+#include <boost/serialization/tracking.hpp>
 #include "../kit/viewprog.hpp"
 #include <boost/multi/array_ref.hpp>
 #include <sstream>
@@ -28,6 +29,11 @@ using T = int; static T mk(long id) { return int(id); } static char const* TN = 
 using T = double; static T mk(long id) { return double(id) + 0.125; } static char const* TN = "double";
 #elif C17_T == 2
 using T = std::string; static T mk(long id) { return std::string(id % 3 == 0 ? 20 : 2, 's') + std::to_string(id) + (id % 5 == 0 ? " with space <&>" : ""); } static char const* TN = "string";
+#elif C17_T == 4
+// a class type with object tracking switched on (as for any class that is also archived through a pointer somewhere in the program): the archive identifies such objects by ADDRESS
+struct Tracked { int v = 0; template<class Ar> void serialize(Ar& ar, unsigned /*version*/) { ar & boost::serialization::make_nvp("v", v); } friend bool operator==(Tracked const& a, Tracked const& b) { return a.v == b.v; } friend bool operator!=(Tracked const& a, Tracked const& b) { return a.v != b.v; } };
+BOOST_CLASS_TRACKING(Tracked, boost::serialization::track_always)
+using T = Tracked; static T mk(long id) { Tracked t; t.v = int(id); return t; } static char const* TN = "tracked-class";
 #else
 using T = multi::array<int, 1>; static T mk(long id) { T a(multi::extensions_t<1>{id % 4}); for(L i = 0; i < id % 4; ++i) a[i] = int(id * 10 + i); return a; } static char const* TN = "array<int,1>";
 #endif
@@ -83,8 +89,9 @@ int main(int argc, char** argv) {
 			std::string const K = std::string("C17:view:") + AK[ak] + ":" + VN[vk_] + ":"; describe(std::string("view of array<") + TN + "," + std::to_string(D) + "> " + AK[ak] + " extents=" + join(e, "x") + " view=" + VN[vk_]); sig_mix(K.c_str()); nontrivial(A.num_elements() >= 2);
 			MV root = MV::root(e); MV vm; std::string s;
 			bool const rbv = D >= 2 && g.chance(1, 3); L const rb0 = g.in(-2, 3), rb1 = g.in(1, 3); if(rbv) { count("re-based-views"); describe(" (view re-based)"); }  // the same views with first indices other than 0 in the first two dimensions: the same elements in the same order
-			auto with_v = [&](auto& X, auto&& f0) { auto f = [&](auto&& vv) { if constexpr(D >= 2) { if(rbv) { f0(std::forward<decltype(vv)>(vv).reindexed(rb0, rb1)); return; } } f0(std::forward<decltype(vv)>(vv)); }; switch(vk_) { case 1: vm = m_rotated(root); f(X.rotated()); break; case 2: { L b1 = e[0] >= 2 ? 1 : 0; vm = m_sliced(root, b1, e[0]); f(X.sliced(b1, e[0])); break; } case 3: if(e[0] % 2 == 0) { vm = m_strided(root, 2); f(X.strided(2)); break; } vm = root; f(X()); break; case 4: if constexpr(D >= 2) { vm = m_transposed(root); f(X.transposed()); break; } [[fallthrough]]; default: vm = root; f(X()); break; } };
-			op((std::string("save-view:") + AK[ak]).c_str()); with_v(A, [&](auto&& v) { s = save(ak, v); });
+			auto with_v = [&](auto& X, auto&& f0) { auto f = [&](auto&& vv) { if constexpr(D >= 2) { if(rbv) { f0(std::forward<decltype(vv)>(vv).reindexed(rb0, rb1)); return; } } f0(std::forward<decltype(vv)>(vv)); }; switch(vk_) { case 1: vm = m_rotated(root); f(X.rotated()); break; case 2: { L b1 = e[0] >= 2 ? 1 : 0; vm = m_sliced(root, b1, e[0]); f(X.sliced(b1, e[0])); break; } case 3: if constexpr(!std::is_const_v<std::remove_reference_t<decltype(X)>>) { if(e[0] % 2 == 0) { vm = m_strided(root, 2); f(X.strided(2)); break; } } vm = root; f(X()); break;  /* (strided() of a const D>1 array does not compile on the pinned tree) */ case 4: if constexpr(D >= 2) { vm = m_transposed(root); f(X.transposed()); break; } [[fallthrough]]; default: vm = root; f(X()); break; } };
+			bool const ro_src = vk_ != 3 && g.chance(1, 2); if(ro_src) { count("view-saved-through-read-only-view-type"); describe(" (read-only source view)"); }  // the view type of a const array has its own serialize()
+			op((std::string("save-view:") + AK[ak]).c_str()); if(ro_src) with_v(std::as_const(A), [&](auto&& v) { s = save(ak, v); }); else with_v(A, [&](auto&& v) { s = save(ak, v); });
 			Arr W(make_extensions<D>(e)); for(L k = 0; k < W.num_elements(); ++k) W.data_elements()[k] = mk(5000 + k); Arr const W0 = W;
 			op((std::string("load-view:") + AK[ak]).c_str()); with_v(W, [&](auto&& w) { load(ak, s, w); });
 			std::vector<char> in(std::size_t(W.num_elements()), 0); for(L k = 0; k < vm.n(); ++k) { L o = vm.off[std::size_t(k)]; in[std::size_t(o)] = 1; if(!(W.data_elements()[o] == A.data_elements()[o])) violation(K + "elements", "k-th element of the loaded view differs from the k-th element of the saved view, k=" + std::to_string(k)); }
